@@ -45,7 +45,7 @@ VARIABLES cid,      \* case number
           ntraj,    \* states in the trajectory
           flag,     \* termination flag: <<>> or <<type>>
           ending,   \* <<>> or <<type, t>>
-          ws,       \* weights of the random picks made so far (exact rationals)
+          ws,       \* the random picks made so far: <<num, den, alternative>> (exact rational weight)
           pick      \* <<>> or <<who, index>>: a coroutine is waiting for a random pick
 vars == <<cid, t, phase, beh, top, ai, pend, ev, nexec, ntraj, flag, ending, ws, pick>>
 
@@ -467,7 +467,8 @@ Pick ==
   /\ LET c == beh[pick[2]] IN
      \E i \in 1..PickCount(c) :
         LET c2 == AfterPick(cid, c, i, t) IN
-        /\ ws' = Append(ws, PickWeight(c, i))
+        /\ ws' = Append(ws, PickWeight(c, i) \o <<i>>)   \* (the alternative taken is kept: two picks with the same
+                                                         \*  observable outcome stay two behaviours, each with its weight)
         /\ ev' = ev \o c2.out
         /\ beh' = [beh EXCEPT ![pick[2]] = c2]
         /\ CASE c2.sig \in Rejections -> EndRej(c2.sig) /\ UNCHANGED <<pend, ai>> /\ pick' = <<>>
